@@ -45,6 +45,10 @@ def _classify(a, b, i):
     y = b[i] if i < len(b) else None
     if x is not None and y is not None and x != y and oracles.norm_comment(x) == oracles.norm_comment(y):
         # exactly the serializer's line normalisation, applied inside a token it should not touch
+        if x[:1] in "'\"" and any(v[:1] in '$`' and (v.count("'") % 2 or v.count('"') % 2) for v in a[:i]):
+            # same root cause as inside $$ / back-quoted tokens: an unpaired quote in such a token in front derails the
+            # serializer's quote tracking, this ordinary literal is taken for code
+            return 'line-ends-normalised-inside-quoted:after-unpaired-quote-in-$-or-`-token'
         return f'line-ends-normalised-inside-{_tclass(x)}'
     if x is not None and y is not None and ''.join(x.split()) == ''.join(y.split()):
         return f'whitespace-inside-{_tclass(x)}'
